@@ -369,6 +369,7 @@ class WorkerPool:
         self._running: set[Reply] = set()
         self._shuttingdown = False
         self._waitall_events: list[Event] = []
+        self._primary_thread_task = None
         if hasprimary:
             if self.execmodel.backend not in ("thread", "main_thread_only"):
                 raise ValueError("hasprimary=True requires thread model")
@@ -403,7 +404,11 @@ class WorkerPool:
         with self._running_lock:
             self._shuttingdown = True
             if self._primary_thread_task_ready is not None:
-                self._primary_thread_task = None
+                # keep a task which was accepted by spawn() but not yet
+                # finished by the primary thread: it still has to run
+                task = self._primary_thread_task
+                if task is None or not task.running:
+                    self._primary_thread_task = None
                 self._primary_thread_task_ready.set()
 
     def active_count(self) -> int:
